@@ -440,6 +440,18 @@ func init() {
 		c.smt.assume(implies(r, app(">=", app("slen", s), app("slen", p))), "HasSuffix ⇒ len(s) ≥ len(suffix)")
 		return Val{T: resT, Term: r}
 	}
+	// strings.LastIndex / Index: a position in s, or -1 (which position: an uninterpreted function of s and the separator)
+	for _, nm := range []string{"LastIndex", "Index"} {
+		nm := nm
+		externalModels["strings."+nm] = func(fr *Frame, callee *ssa.Function, args []Val, resT types.Type, st *State, reach string, pos token.Pos) Val {
+			c := fr.c
+			fn := "str_" + strings.ToLower(nm)
+			c.smt.declareFun(fn, []string{"Str", "Str"}, "Int")
+			t := app(fn, c.termOf(args[0]), c.termOf(args[1]))
+			c.smt.assume(and(app("<=", "(- 1)", t), app("<=", t, app("slen", c.termOf(args[0])))), "strings."+nm+": -1 or a position in the string")
+			return Val{T: resT, Term: t}
+		}
+	}
 	externalModels["strings.Join"] = func(fr *Frame, callee *ssa.Function, args []Val, resT types.Type, st *State, reach string, pos token.Pos) Val {
 		c := fr.c
 		// a pure function of the joined elements (window of the backing array) and the separator
